@@ -390,6 +390,16 @@ def format_calls(body):
     return out
 
 
+def _tuple_proj(e):
+    """`(a, b).1` -> b (format_args! with several arguments binds them in a tuple first)"""
+    x = e.strip()
+    if x.k == 'field' and isinstance(x.b, str) and x.b.startswith('::') and x.b[2:].isdigit():
+        base = x.a.strip()
+        if base.k == 'agg' and isinstance(base.b, list) and int(x.b[2:]) < len(base.b):
+            return base.b[int(x.b[2:])].strip()
+    return e
+
+
 def string_template(prog, body, e):
     """what literal text an expression of type String / &str starts with and consists of:
     returns list of ('lit', s) | ('arg', expr) or None when it cannot be determined"""
@@ -421,6 +431,7 @@ def string_template(prog, body, e):
                     out.append(('lit', v))
                 else:
                     ax = args[v] if v < len(args) else None
+                    ax = _tuple_proj(ax) if ax is not None else None
                     sub = string_template(prog, body, ax) if ax is not None else None
                     if sub and all(k == 'lit' for k, _ in sub):
                         out += sub
